@@ -6,15 +6,15 @@
    SpecEnum:  one state = one tree.  Universe(Profile):
      wide    one structural element with every slot absent / present (every leaf text) / duplicated
              and every attribute state, alone or followed by a run that may close a radical
-     deep    depth 2: one slot of the outer element holds a (narrow) structural element,
+     deep1-3 depth 2: one slot of the outer element holds a (narrow) structural element,
              alone or followed by a closing run
-     pairs   two (thorough: up to three) narrow top-level elements / runs in sequence
+     pairs   two or three narrow top-level elements / runs in sequence
    SpecBuild: a bottom-up tree builder for `tlc -simulate` (deeper, random trees): stk is a stack of
              contents; every content of the stack is checked as a tree of its own.           *)
 EXTENDS Omml
 
 CONSTANTS Profile,          \* "quick" | "thorough"
-          Part,             \* "wide" | "deep" | "pairs" | "all": which part of the universe
+          Part,             \* "wide" | "pairs" | "deep1" | "deep2" | "deep3" | "all": part of the universe
           MaxStack, MaxLen  \* SpecBuild bounds
 
 VARIABLES tree, stk
@@ -27,11 +27,13 @@ NoVal == [st |-> "noval", v |-> ""]
 Thorough == Profile = "thorough"
 
 (* ---- leaves ---- *)
+Is(ps) == Part \in ps \cup {"all"}
 TextsWide == {<<>>, <<"a">>, <<"(">>, <<")">>, <<"U+03B1">>, <<WS>>, <<"a", ")">>}
-             \cup (IF Thorough THEN {<<"[">>, <<"]">>, <<"{">>, <<"}">>, <<"(", WS>>, <<")", "b">>} ELSE {})
-TextsNarrow == {<<"a">>, <<"(">>, <<")">>} \cup (IF Thorough THEN {<<"[">>, <<"]">>} ELSE {})
+             \cup (IF Thorough THEN {<<"[">>, <<"]">>, <<"{">>, <<"}">>, <<"(", WS>>} ELSE {})
+TextsNarrow == {<<"(">>, <<")">>} \cup (IF Thorough THEN {<<"a">>} ELSE {})
 Closing == {<<>>, << R(<<"a", ")">>) >>, << R(<<")">>), R(<<")">>) >>}
            \cup (IF Thorough THEN {<< R(<<"]", ")">>) >>} ELSE {})
+Closing2 == {<<>>, << R(<<"a", ")">>) >>}
 
 Contents(T) == {<<>>} \cup {<<R(t)>> : t \in T}
 DupSlots == { << <<R(<<"a">>)>>, <<R(<<"b">>)>> >>, << <<R(<<"(">>)>>, <<R(<<")">>)>> >> }
@@ -61,27 +63,27 @@ Struct(S, C, chrN, chrA, begs, ends) ==
     \cup {[k |-> "box", kids |-> c] : c \in C}
 
 CW == Contents(TextsWide)
-Wide == Struct(Slots(CW) \cup DupSlots, CW, ChrNary, ChrAcc, BegSet, EndSet)
+Wide == IF ~Is({"wide"}) THEN {} ELSE Struct(Slots(CW) \cup DupSlots, CW, ChrNary, ChrAcc, BegSet, EndSet)
 
 CN == Contents(TextsNarrow)
 NarrowAttrN == {NoEl, NoVal, Val("U+2211")}
 NarrowAttrA == {NoEl, Val("U+0303")}
 Narrow == Struct(Slots(CN), CN, NarrowAttrN, NarrowAttrA, {NoEl, NoVal, Val("[")}, {NoEl, Val("]")})
 
-\* depth 2: exactly one slot holds a narrow element (optionally with a run before / after), the
-\* other slots are tiny
-Inner == {<<n>> : n \in Narrow} \cup {<<R(<<"(">>), n>> : n \in Narrow} \cup {<<n, R(<<")">>)>> : n \in Narrow}
-Tiny == {<<>>, << <<R(<<"a">>)>> >>, << <<R(<<")">>)>> >>}
+\* depth 2: exactly one slot holds a narrow element (thorough: optionally with a run before /
+\* after), the other slots are tiny
+Inner == {<<n>> : n \in Narrow}
+         \cup (IF Thorough THEN {<<R(<<"(">>), n>> : n \in Narrow} \cup {<<n, R(<<")">>)>> : n \in Narrow} ELSE {})
+Tiny == {<<>>, << <<R(<<")">>)>> >>} \cup (IF Thorough THEN {<< <<R(<<"a">>)>> >>} ELSE {})
 DeepS == {<<c>> : c \in Inner}
-Deep ==
+Deep1 == IF ~Is({"deep1"}) THEN {} ELSE
     {[k |-> "f", num |-> a, den |-> b] : a \in DeepS, b \in Tiny}
     \cup {[k |-> "f", num |-> b, den |-> a] : a \in DeepS, b \in Tiny}
     \cup {[k |-> "sSup", e |-> a, sup |-> b] : a \in DeepS, b \in Tiny}
     \cup {[k |-> "sSubSup", e |-> b, sub |-> a, sup |-> c] : a \in DeepS, b \in Tiny, c \in Tiny}
-    \cup {[k |-> "rad", deg |-> a, e |-> b] : a \in DeepS, b \in Tiny \cup {<< <<R(<<"(">>)>> >>}}
+Deep2 == IF ~Is({"deep2"}) THEN {} ELSE
+    {[k |-> "rad", deg |-> a, e |-> b] : a \in DeepS, b \in Tiny \cup {<< <<R(<<"(">>)>> >>}}
     \cup {[k |-> "rad", deg |-> b, e |-> a] : a \in DeepS, b \in Tiny}
-    \cup {[k |-> "nary", chr |-> h, sub |-> a, sup |-> <<>>, e |-> b] : h \in NarrowAttrN, a \in DeepS, b \in Tiny}
-    \cup {[k |-> "nary", chr |-> h, sub |-> b, sup |-> <<>>, e |-> a] : h \in NarrowAttrN, a \in DeepS, b \in Tiny}
     \cup {[k |-> "d", beg |-> x, end |-> NoEl, es |-> <<c>>] : x \in {NoEl, NoVal, Val("|")}, c \in Inner}
     \cup {[k |-> "m", rows |-> << <<c, <<R(<<"b">>)>> >> >>] : c \in Inner}
     \cup {[k |-> "func", fName |-> f, e |-> a] : f \in {<< <<R(<<"s", "i", "n">>)>> >>}, a \in DeepS}
@@ -89,19 +91,23 @@ Deep ==
     \cup {[k |-> "bar", e |-> a] : a \in DeepS}
     \cup {[k |-> "acc", chr |-> h, e |-> a] : h \in {NoEl, NoVal, Val("U+0304")}, a \in DeepS}
     \cup {[k |-> "box", kids |-> c] : c \in Inner}
+Deep3 == IF ~Is({"deep3"}) THEN {} ELSE
+    {[k |-> "nary", chr |-> h, sub |-> a, sup |-> <<>>, e |-> b] : h \in NarrowAttrN, a \in DeepS, b \in Tiny}
+    \cup {[k |-> "nary", chr |-> h, sub |-> b, sup |-> <<>>, e |-> a] : h \in NarrowAttrN, a \in DeepS, b \in Tiny}
 
 \* sequences of narrow elements: the register is shared by everything that follows a radical
-PairSet == IF Thorough THEN Narrow
-           ELSE {n \in Narrow : n.k \in {"rad", "d", "sSup", "f"}}
+PairSet == {n \in Narrow : n.k \in {"rad", "d", "f"} \cup (IF Thorough THEN {"sSup", "func", "acc", "bar", "box", "m"} ELSE {})}
+           \cup (IF Thorough THEN {n \in Narrow : n.k = "nary" /\ n.sup = <<>>} ELSE {})
 Rads == {n \in Narrow : n.k = "rad"}
-Pairs == {<<a, b>> : a \in PairSet, b \in PairSet}
-Triples == IF Thorough THEN {<<a, b, c>> : a \in Rads, b \in Rads \cup {R(<<"a", ")">>)}, c \in Rads} ELSE {}
+Pairs == IF ~Is({"pairs"}) THEN {} ELSE {<<a, b>> : a \in PairSet, b \in PairSet}
+Triples == IF Is({"pairs"})
+           THEN {<<a, b, c>> : a \in Rads, b \in Rads \cup {R(<<"a", ")">>)}, c \in Rads} ELSE {}
 
 Universe ==
-    (IF Part \in {"wide", "all"} THEN {<<n>> \o c : n \in Wide, c \in Closing}
-                                       \cup {<<R(t)>> : t \in TextsWide} \cup {<<>>} ELSE {})
-    \cup (IF Part \in {"deep", "all"} THEN {<<n>> \o c : n \in Deep, c \in Closing} ELSE {})
-    \cup (IF Part \in {"pairs", "all"} THEN {p \o c : p \in Pairs \cup Triples, c \in Closing} ELSE {})
+    (IF Is({"wide"}) THEN {<<n>> \o c : n \in Wide, c \in Closing}
+                          \cup {<<R(t)>> : t \in TextsWide} \cup {<<>>} ELSE {})
+    \cup {<<n>> \o c : n \in Deep1 \cup Deep2 \cup Deep3, c \in Closing2}
+    \cup {p \o c : p \in Pairs, c \in Closing} \cup {p \o c : p \in Triples, c \in Closing2}
 
 InitEnum == tree \in Universe /\ stk = <<>>
 SpecEnum == InitEnum /\ [][UNCHANGED vars]_vars
